@@ -28,7 +28,7 @@ import json
 import random as _random_module
 
 from opsim.core import HarnessError
-from opsim.util import call, weighted
+from opsim.util import call, weighted, quiet
 
 from operon_ai.state.genome import Genome, Gene, GeneType, ExpressionLevel
 
@@ -280,7 +280,7 @@ def _run(plan, k, fake):
     appr = Approver(k, script) if has_approver else None
 
     out = call(Genome, genes=[mk_gene(*g) for g in cfg["genes"]], allow_mutations=cfg["allow"],
-               mutation_rate=cfg["rate"], on_mutation=appr, silent=True)
+               mutation_rate=cfg["rate"], on_mutation=appr, silent=quiet())
     if not out.ok:
         raise HarnessError(f"construction failed: {out.exc!r}")
     root = out.value
